@@ -314,6 +314,9 @@ theorem powInt_sound1 (c : ℤ) (x : ℝ) (hx : x ≠ 0 ∨ 0 ≤ c) : Sound1 (p
 
 /-- `AdArray.__pow__(float c)` for arbitrary real `c`: `val ** c`, factor `c · val ** (c - 1)` -/
 noncomputable def powConstRule (c : ℝ) : Rule1 ℝ := ⟨fun x => x ^ c, fun x => c * x ^ (c - 1)⟩
+/-- `AdArray ** AdArray`: `val = a ** b`, factors `b · a ** (b-1)` and `a ** b · log a` -/
+noncomputable def powRule : Rule2 ℝ :=
+  ⟨fun a b => a ^ b, fun a b => b * a ^ (b - 1), fun a b => a ^ b * Real.log a⟩
 noncomputable def expRule : Rule1 ℝ := ⟨Real.exp, Real.exp⟩
 noncomputable def logRule : Rule1 ℝ := ⟨Real.log, fun x => 1 / x⟩
 noncomputable def sinRule : Rule1 ℝ := ⟨Real.sin, Real.cos⟩
@@ -330,6 +333,10 @@ noncomputable def charRule (tol : ℝ) : Rule1 ℝ := ⟨fun x => if |x| ≤ tol
 /-- `functions.heaviside(zerovalue, ·)`: `np.heaviside`, zero Jacobian -/
 noncomputable def heavisideRule (z : ℝ) : Rule1 ℝ :=
   ⟨fun x => if x < 0 then 0 else if x = 0 then z else 1, fun _ => 0⟩
+
+theorem pow_sound2 (a b : ℝ) (ha : 0 < a) : Sound2 powRule a b := by
+  unfold Sound2
+  exact (Real.hasStrictFDerivAt_rpow_of_pos (a, b) ha).hasFDerivAt
 
 theorem tanh_hasDerivAt (x : ℝ) : HasDerivAt Real.tanh ((Real.cosh x ^ 2)⁻¹) x := by
   have hc : Real.cosh x ≠ 0 := (Real.cosh_pos x).ne'
